@@ -98,16 +98,41 @@ def sync_lockfile(crate_dir):
 GRAMMAR_JSON = os.path.join(WORK, "grammar.json")
 
 
+GEN_JSON = os.path.join(WORK, "gen.json")
+REVIEWED_SITES = os.path.join(ROOT, "tie", "reviewed_sites.json")
+
+
 def run_translator():
-    """Regenerates lean/Tx3Model/Gen/Grammar.lean (and work/grammar.json, which the harness's
-    grammar-driven generator reads) from /repo's tx3.pest.  The Lean file is rewritten only when
-    its content changes, so an unchanged tree rebuilds nothing."""
+    """Regenerates lean/Tx3Model/Gen/*.lean from /repo's working tree: Grammar.lean from tx3.pest
+    (pest2lean.py; also work/grammar.json, which the harness's grammar-driven generator reads) and
+    Sites.lean / Schema.lean from the Rust sources (the syn-based translator; also work/gen.json).
+    The Lean files are rewritten only when their content changes, so an unchanged tree rebuilds
+    nothing."""
     os.makedirs(WORK, exist_ok=True)
     with Lock("lean"):
         rc, out = run(["python3", os.path.join(TRANSLATOR, "pest2lean.py"),
                        os.path.join(REPO, "crates", "tx3-lang", "src", "tx3.pest"),
                        os.path.join(LEAN, "Tx3Model", "Gen", "Grammar.lean"), GRAMMAR_JSON])
-    return rc == 0, out
+    if rc != 0:
+        return False, out
+    with Lock("cargo"):
+        sync_lockfile(TRANSLATOR)
+        rc2, out2 = run(["cargo", "build", "--offline", "-q"], cwd=TRANSLATOR)
+    if rc2 != 0:
+        return False, out + out2
+    with Lock("lean"):
+        rc3, out3 = run([TRANSLATOR_BIN, REPO, os.path.join(LEAN, "Tx3Model", "Gen"), GEN_JSON])
+    return rc3 == 0, out + out3
+
+
+def unreviewed_sites():
+    """Sites of the regenerated tables that the hand-kept review list does not hold (for messages)."""
+    try:
+        gen = json.load(open(GEN_JSON))
+        rev = {s["key"] for s in json.load(open(REVIEWED_SITES))["sites"]}
+    except Exception as e:  # noqa
+        return [f"could not read the site tables: {e}"]
+    return [f"{s['file']}:{s['line']} {s['fn']} {s['kind']}#{s['ord']} | {s['text']}" for s in gen["sites"] if s["key"] not in rev]
 
 
 def build_harness():
@@ -136,6 +161,72 @@ def lake_build(targets):
     with Lock("lean"):
         rc, out = run(["lake", "build"] + targets, cwd=LEAN)
     return rc == 0, out
+
+
+SITES = "Tx3Proofs.Tie.Sites"
+SCHEMA = "Tx3Proofs.Tie.Schema"
+T = "Tx3.Tie."
+# which regenerated-table obligations each property rests on
+TIES_BY_PROP = {
+    "C02": {SITES: [T + "translator_no_problems", T + "sites_reviewed_numeric"]},
+    "C06": {SCHEMA: [T + "traversals_cover", T + "carriers_have_traversals"]},
+    "C07": {SCHEMA: [T + "traversals_cover"]},
+    "C08": {SCHEMA: [T + "directives_consumed_are_produced"]},
+    "C11": {SCHEMA: [T + "serde_notes_reviewed", T + "wire_types_derive_serde"], SITES: [T + "sites_reviewed_wire"]},
+    "C12": {SITES: [T + "translator_no_problems", T + "sites_reviewed_front"]},
+    "C13": {SITES: [T + "translator_no_problems", T + "sites_reviewed_lowering"]},
+    "C14": {SITES: [T + "translator_no_problems", T + "sites_reviewed_back"]},
+    "C16": {SITES: [T + "translator_no_problems", T + "sites_reviewed_json"]},
+    "C17": {SITES: [T + "sites_reviewed_tii"]},
+    "C18": {SCHEMA: [T + "serde_notes_reviewed"]},
+}
+
+
+def _failing_theorems(module, out):
+    """Maps the error lines of a module's build output to the theorems they fall in."""
+    path = os.path.join(LEAN, *module.split(".")) + ".lean"
+    try:
+        lines = open(path).read().split("\n")
+    except OSError:
+        return None
+    decls = [(i + 1, m.group(1)) for i, l in enumerate(lines) for m in [re.match(r"^theorem\s+(\S+)", l)] if m]
+    bad = set()
+    for m in re.finditer(re.escape(os.path.basename(path)) + r":(\d+):\d+", out):
+        ln = int(m.group(1))
+        owner = [name for (start, name) in decls if start <= ln]
+        if owner:
+            bad.add(owner[-1])
+    return bad
+
+
+def tie_obligations(rep, prop, ties):
+    """Builds each tie module on its own (a broken tie must not hide the other obligations) and
+    audits its theorems.  `ties` = {module: [theorem, ...]}."""
+    all_ok = True
+    for mod, thms in ties.items():
+        ok, out = lake_build([mod])
+        if not ok:
+            bad = _failing_theorems(mod, out)
+            detail = out[-3000:]
+            if mod == SITES:
+                detail = "sites not in the reviewed list:\n" + "\n".join(unreviewed_sites()[:40]) + "\n" + detail
+            for t in thms:
+                short = t.split(".")[-1]
+                failed = bad is None or not bad or short in bad
+                rep.obligation(f"tie:{t}", not failed, detail if failed else "elaborated (another theorem of the module failed)")
+                all_ok = all_ok and not failed
+            continue
+        axioms, aout, _ = audit_axioms(prop + "-tie-" + mod.split(".")[-1], [mod], thms)
+        for t in thms:
+            ax = axioms.get(t)
+            if ax is None:
+                rep.obligation(f"tie:{t}", False, "not found by #print axioms: " + aout[-500:])
+                all_ok = False
+            else:
+                bad = [a for a in ax if a not in ALLOWED_AXIOMS]
+                rep.obligation(f"tie:{t}", not bad, f"axioms={ax}")
+                all_ok = all_ok and not bad
+    return all_ok
 
 
 FORBIDDEN = re.compile(
@@ -464,7 +555,7 @@ class Report:
         return status
 
 
-def standard_prologue(rep, prop, lean_targets, audit_modules, theorems, need_harness=True):
+def standard_prologue(rep, prop, lean_targets, audit_modules, theorems, need_harness=True, ties=None):
     """translator → lake build → axiom audit → forbidden-word grep → harness build.
     Records one obligation per theorem (compiled + axioms allowed)."""
     ok, out = run_translator()
@@ -487,6 +578,9 @@ def standard_prologue(rep, prop, lean_targets, audit_modules, theorems, need_har
         else:
             bad = [a for a in ax if a not in ALLOWED_AXIOMS]
             rep.obligation(f"theorem:{short}", not bad, f"axioms={ax}")
+    ties = ties if ties is not None else TIES_BY_PROP.get(prop)
+    if ties:
+        tie_obligations(rep, prop, ties)
     hits = grep_forbidden()
     rep.obligation("no-sorry-admit-axiom-native_decide", not hits, "\n".join(hits))
     if need_harness:
